@@ -18,6 +18,8 @@ NOT_DECIDED = ['the soundness error of the FRI query phase (probability statemen
                'that a corrupted value actually changes the recomputed root (hash binding)']
 TRUSTED = ['rustc nightly MIR', 'hash primitive catalogue']
 
+THOROUGH_MAIN_CONFIGS = ['b248s6', 'nostd']
+
 
 def run(ctx, rep):
     db = ctx.main
